@@ -1,0 +1,8 @@
+//go:build verif
+
+package vaxis
+
+// VerifC17Cursor returns the cursor that the next Render would show (set by Window.ShowCursor).
+func (vx *Vaxis) VerifC17Cursor() (col int, row int, visible bool) {
+	return vx.cursorNext.col, vx.cursorNext.row, vx.cursorNext.visible
+}
